@@ -107,7 +107,7 @@ DEASYNC = ["consensus/src/core.rs", "consensus/src/synchronizer.rs", "consensus/
 # synchronous select (shims/tokio select_now!): the function returns when no branch is ready
 LOWER_LOOPS = {("mempool/src/batch_maker.rs", "run"), ("mempool/src/quorum_waiter.rs", "run")}
 # async fns that must keep genuine suspension although they contain no select! (they wait for a peer's acknowledgement)
-KEEP_ASYNC = {("mempool/src/quorum_waiter.rs", "waiter")}
+KEEP_ASYNC = set()
 # Inside a lowered run loop, these awaits mean "wait for the next acknowledgement"; lowered they become "take the next
 # acknowledgement that is already there, else stop waiting" (vnow_or_none): exact for schedules in which every
 # acknowledgement that will ever arrive has arrived before the step, which is what the C12 harnesses use.
@@ -116,7 +116,7 @@ AWAIT_OR_NONE = {("mempool/src/quorum_waiter.rs", "run"): ["wait_for_quorum.next
 # plain fn that runs PREFIX at call time (awaits inside it polled once) and returns `::tokio::TailFut(<future>, |v| v<postfix>)`,
 # an ordinary struct future instead of a coroutine. Difference to the async fn: PREFIX runs when the future is created, not at
 # its first poll; the harnesses poll every such future right after creating it.
-TAIL_AWAIT = {("store/src/lib.rs", "read"), ("store/src/lib.rs", "notify_read")}
+TAIL_AWAIT = {("store/src/lib.rs", "read"), ("store/src/lib.rs", "notify_read"), ("mempool/src/quorum_waiter.rs", "waiter")}
 ASYNC_FN_RE = re.compile(r"\basync fn\s+(\w+)")
 
 
@@ -198,6 +198,16 @@ def deasync(path, rel=""):
             pre, tail = _split_tail(body)
             tm = re.match(r"^\s*(\w+)\s*\.await(.*)$", tail, re.S)
             am = re.search(r"\)\s*->\s*(.+)$", sig.rstrip(), re.S)
+            wm = re.match(r"^\s*let _ = (\w+)\.await;\s*(\w+)\s*$", body, re.S)
+            if wm and am:
+                # `let _ = <future>.await; <value>`  ->  TailFut(<future>, |_| <value>)
+                sig2 = sig.replace("async fn", "fn", 1).rstrip()
+                sig2 = sig2[:re.search(r"\)\s*->\s*(.+)$", sig2, re.S).start()] + ") -> impl ::std::future::Future<Output = %s> " % am.group(1).strip()
+                out.append(s[pos:m.start()])
+                out.append("%s{ ::tokio::TailFut::new(%s, move |_| %s) }" % (sig2, wm.group(1), wm.group(2)))
+                lowered.append(m.group(1) + " (tail await kept)")
+                pos = j + 1
+                continue
             if not tm or not am:
                 raise SystemExit("deasync: %s::%s does not end in `<future>.await<postfix>`" % (rel, m.group(1)))
             sig2 = sig.replace("async fn", "fn", 1).rstrip()
